@@ -5,12 +5,15 @@
    Tool: the query-level simulation relation `R2g false` (ProofsRefine.v) also relates crash states - a torn tail or
    a changed mtime is invisible to the queries - so the answers of a crash state are the specification's answers
    on some run map H' (`answers_as s' H'`):
-     open / write / update / chtimes : every crash state answers as the run map BEFORE or AFTER the operation (atomic)
-     close (compaction)              : before creating the twin and after unlinking the original: as BEFORE / AFTER;
-                                       while twin and original coexist, find still answers as BEFORE (P1, P2) -
-                                       latest/recent may list the run twice or lose a slot there (F7b, refuted)
+     open / write / close / update / chtimes : every crash state answers as the run map BEFORE or AFTER the operation (atomic).
+                                       Close (eb925d1): the temporary copy is matched by no pattern (`view_answers`), and once the
+                                       rename has published the compacted file the readers drop the original (`published_view`):
+                                       the store already answers as after the unlink
+     update after a kill             : the crash states of write / update are RELATED (R2g false) to the run map before or after;
+                                       a later update by a new process keeps the relation, because writer.open terminates a torn
+                                       last line first (32b069b; `sim_update_g`, `torn_then_update`)
      retention / rename              : every prefix answers as a run map between BEFORE and AFTER (P1)
-   Refuted (witnesses in ProofsC07Ex.v): F7a empty newest file, F7b compaction twin, F7c update glued to a torn tail. *)
+   F7a / F7b / F7c are repaired; their former witnesses are positive Examples in ProofsC07Ex.v. *)
 From Coq Require Import List String Ascii Bool Arith ZArith Lia Permutation.
 Import ListNotations.
 From BD.Hist Require Import Model SModel Spec ProofsLib ProofsStore ProofsRefine ProofsCache.
